@@ -616,7 +616,9 @@ func runC01(c *Ctx) {
 			instrsOfU(writeTo, func(x ssa.Instruction) {
 				if isCall(x, "builtin.copy") {
 					a := x.(*ssa.Call).Call.Args
-					if derivesFrom(a[0], func(v ssa.Value) bool { return sameOrigin(v, ssa.Value(mk)) || isFieldLoad(v, "vnet.chunkUDP", "userData") }, false) && sameOrigin(a[1], ssa.Value(payload)) {
+					if derivesFrom(a[0], func(v ssa.Value) bool {
+						return sameOrigin(v, ssa.Value(mk)) || isFieldLoad(v, "vnet.chunkUDP", "userData")
+					}, false) && sameOrigin(a[1], ssa.Value(payload)) {
 						okCopy = true
 					}
 				}
